@@ -35,6 +35,13 @@ class Boom(Exception):
     pass
 
 
+class Interrupt(KeyboardInterrupt):
+    """An injected exception that does not derive from Exception (what Ctrl-C raises)."""
+
+
+FAULT = [Boom]
+
+
 class Clock:
     def __init__(self):
         self.t = 100.0
@@ -74,7 +81,7 @@ class Flaky:
     def __rich_console__(self, console, options):
         Flaky.counter[0] += 1
         if Flaky.fail_at[0] is not None and Flaky.counter[0] == Flaky.fail_at[0]:
-            raise Boom("render %d" % Flaky.counter[0])
+            raise FAULT[0]("render %d" % Flaky.counter[0])
         from rich.text import Text
         yield Text("\n".join(self.lines))
 
@@ -174,7 +181,7 @@ class Session:
                     def render(self_inner, task):
                         Flaky.counter[0] += 1
                         if Flaky.fail_at[0] is not None and Flaky.counter[0] == Flaky.fail_at[0]:
-                            raise Boom("column render %d" % Flaky.counter[0])
+                            raise FAULT[0]("column render %d" % Flaky.counter[0])
                         return Text("c%d" % task.id)
                 cols = (TextColumn("{task.description}"), BarColumn(bar_width=10), FlakyColumn())
             return Progress(*cols, console=self.console, auto_refresh=False, transient=self.cfg["transient"],
@@ -441,8 +448,8 @@ def run_with_fault(ctx, kind, cfg, ops, fail_render=None, fail_after_op=None, pr
                 for j, op in enumerate(ops):
                     s.apply(op)
                     if fail_after_op is not None and j == fail_after_op:
-                        raise Boom("body %d" % j)
-        except Boom as e:
+                        raise FAULT[0]("body %d" % j)
+        except (Boom, Interrupt) as e:
             raised = e
         s.feed()
         out = {"raised": raised is not None, "renders": Flaky.counter[0],
@@ -462,6 +469,7 @@ def run_with_fault(ctx, kind, cfg, ops, fail_render=None, fail_after_op=None, pr
 
 def wl_faults(ctx, rng, case_no):
     kind = rng.choice(["live", "progress"])
+    FAULT[0] = Interrupt if rng.random() < 0.35 else Boom
     cfg = {"width": rng.choice([30, 60]), "height": rng.choice([4, 8]), "transient": rng.random() < 0.4,
            "overflow": rng.choice(["crop", "ellipsis", "visible"])}
     ops = [o for o in gen_history(rng, kind, cfg["height"], rng.choice([3, 6, 10])) if o[0] not in ("start", "stop")]
@@ -481,11 +489,12 @@ def wl_faults(ctx, rng, case_no):
         try:
             out = run_with_fault(ctx, kind, cfg, ops, fail_render=idx if what == "render" else None,
                                  fail_after_op=idx if what == "body" else None, pre_ops=pre_ops)
-        except Exception as e:
+        except (Exception, KeyboardInterrupt) as e:
             ctx.violation("unexpected-exception-type-escapes:%s:%s" % (kind, exc_mechanism(e)),
                           {"kind": kind, "config": cfg, "ops": ops, "fault": [what, idx], "error": repr(e)})
             continue
-        wit = {"kind": kind, "config": cfg, "pre_ops": pre_ops, "ops": ops, "fault": [what, idx], "outcome": out}
+        wit = {"kind": kind, "config": cfg, "pre_ops": pre_ops, "ops": ops, "fault": [what, idx], "outcome": out,
+               "exception_class": FAULT[0].__name__ + ("(KeyboardInterrupt)" if FAULT[0] is Interrupt else "(Exception)")}
         where = "during-start" if not out["entered"] else "in-block"
         ctx.count("mon.cleanup_after_fault")
         if not out["raised"]:
@@ -498,7 +507,7 @@ def wl_faults(ctx, rng, case_no):
             ctx.violation("console-buffer-still-nested-after-exception:%s:%s" % (kind, where), wit)
         elif not out["cursor_visible"]:
             ctx.violation("cursor-hidden-after-exception:%s:%s" % (kind, where), wit)
-        ctx.hist("fault_kind", "%s/%s/%s" % (kind, what, where))
+        ctx.hist("fault_kind", "%s/%s/%s/%s" % (kind, what, where, FAULT[0].__name__))
         ctx.case_done(("f", kind, repr(cfg), repr(ops), what, idx), True,
                       {"kind": kind, "ops": ops[:8], "fault": [what, idx], "renders_in_clean_run": R})
 
